@@ -19,7 +19,9 @@ ENGINES = [
 NOTES = (
     "Technique family: solver-based checking of the real code (Kani/CBMC over the compiled crates; MIR->SMT for "
     "FileId). Every claim is bounded; bounds, stubs and what lies outside are in evidence/<ID>.json and DESIGN.md. "
-    "Exit 2 = inconclusive (timeout/OOM/build error/vacuous harness/non-reproducing counterexample) and is never success."
+    "Exit 2 = inconclusive (timeout/OOM/build error/vacuous harness/non-reproducing counterexample) and is never success. "
+    "Known findings: /verif/known_findings.json (none open; genuine defects found by the checks were repaired in /repo as "
+    "`fix:` commits bdffd60, 0569fd0, 337ddb5, fab33bc, 210b5a6 and are listed there as `fixed:` entries, which suppress nothing)."
 )
 
 CHECKS = {
